@@ -572,6 +572,7 @@ func run(checkPath, tier, only string, verbose, novalidate bool) int {
 			continue
 		}
 		seen := map[string]bool{}
+		unconfirmed := map[string][]string{}
 		for k, e := range exp[pp] {
 			nr := nres[k]
 			if e.sample != nil {
@@ -603,7 +604,7 @@ func run(checkPath, tier, only string, verbose, novalidate bool) int {
 			if !confirmed {
 				if !seen[key+"|unconfirmed"] {
 					seen[key+"|unconfirmed"] = true
-					inconclusive = append(inconclusive, fmt.Sprintf("%s: model for %q did not reproduce natively (engine: %s at %s; native %+v, vector %v)", v.Harness, v.Label, v.Panic, v.Where, nr, clip(fmt.Sprint(v.Vector), 400)))
+					unconfirmed[key] = append(unconfirmed[key], fmt.Sprintf("%s: model for %q did not reproduce natively (engine: %s at %s; native %+v, vector %v)", v.Harness, v.Label, v.Panic, v.Where, nr, clip(fmt.Sprint(v.Vector), 400)))
 				}
 				continue
 			}
@@ -631,6 +632,13 @@ func run(checkPath, tier, only string, verbose, novalidate bool) int {
 			fmt.Println(line)
 			violLines = append(violLines, line)
 			exit = 1
+		}
+		// a model that did not reproduce is inconclusive only when no other
+		// witness of the same assertion reproduced
+		for key, msgs := range unconfirmed {
+			if !seen[key] {
+				inconclusive = append(inconclusive, msgs...)
+			}
 		}
 	}
 	inconclusive = dedupe(inconclusive)
